@@ -577,6 +577,23 @@ class Interp:
             return self._def_value(d)
         if isinstance(expr, ast.Attribute):
             return self._attr_of(expr.value, expr.attr, fr)
+        if isinstance(expr, ast.Subscript) and isinstance(expr.value, ast.Name) and not self._comp_bound(expr.value) and fr.lookup(expr.value.id) is None:
+            # a module-level constant table indexed by a key with known constant value(s)
+            try:
+                tab = self.folder.fold(fr.module, expr.value)
+            except Exception:  # noqa: BLE001
+                tab = None
+            if isinstance(tab, dict):
+                ks = self.eval(expr.slice, fr)
+                if ks and all(isinstance(k_, Const) and k_.value in tab for k_ in ks):
+                    outv = set()
+                    for k_ in ks:
+                        v_ = self.folder.plain(tab[k_.value])
+                        if not (isinstance(v_, (int, str, bool)) or v_ is None):
+                            return U
+                        outv.add(Const(v_))
+                    return frozenset(outv)
+            return U
         if isinstance(expr, ast.IfExp):
             t = self.truth(expr.test, fr)
             if t is True:
